@@ -6,6 +6,9 @@
 
 #pragma once
 
+#if defined(PIKA_VERIF)
+#include <pika/config.hpp>
+#endif
 #include <pika/assert.hpp>
 #include <pika/concurrency/cache_line_data.hpp>
 
@@ -120,6 +123,9 @@ namespace pika::concurrency::detail {
             range desired_range{0, 0};
             T index = 0;
 
+#if defined(PIKA_VERIF)
+            PIKA_VERIF_POINT(1701, this);
+#endif
             range expected_range = current_range.data_.load(std::memory_order_relaxed);
 
             do {
@@ -127,6 +133,9 @@ namespace pika::concurrency::detail {
 
                 index = expected_range.first;
                 desired_range = expected_range.increment_first();
+#if defined(PIKA_VERIF)
+                PIKA_VERIF_POINT(1702, this);
+#endif
             } while (!current_range.data_.compare_exchange_weak(expected_range, desired_range));
 
             return std::make_optional<>(index);
@@ -141,6 +150,9 @@ namespace pika::concurrency::detail {
             range desired_range{0, 0};
             T index = 0;
 
+#if defined(PIKA_VERIF)
+            PIKA_VERIF_POINT(1701, this);
+#endif
             range expected_range = current_range.data_.load(std::memory_order_relaxed);
 
             do {
@@ -148,6 +160,9 @@ namespace pika::concurrency::detail {
 
                 desired_range = expected_range.decrement_last();
                 index = desired_range.last;
+#if defined(PIKA_VERIF)
+                PIKA_VERIF_POINT(1702, this);
+#endif
             } while (!current_range.data_.compare_exchange_weak(expected_range, desired_range));
 
             return std::make_optional(index);
